@@ -120,6 +120,7 @@ type Exec struct {
 	mcache         map[mkey]*ssa.Function
 
 	PreemptBound        int
+	SchedForkBound      int
 	PreemptBoundDefault int
 	WitnessMode         bool
 	witnessed           map[string]bool
